@@ -1,10 +1,10 @@
 package rules
 
 import (
+	"fmt"
 	"go/ast"
 	"go/token"
 	"go/types"
-	"fmt"
 	"sort"
 	"strings"
 
@@ -107,32 +107,7 @@ func c18(c *Ctx) {
 					gOpen := core.FlagClear("l.closed", func(pp core.Path) bool { return pp.HasFields("closed") })
 					res := core.CutReach(p, fn, gOpen, b)
 					r.CutOb(p, "R-C18.2", construct+" after closed==false", p.Pos(sd.Pos()), res, gOpen)
-					// same region: no lock operation between the test and the send
-					okRegion := true
-					for _, tb := range fn.Blocks {
-						ifi, isIf := tb.Instrs[len(tb.Instrs)-1].(*ssa.If)
-						if !isIf {
-							continue
-						}
-						if _, m := core.MatchCond(gOpen, ifi.Cond, nil); !m {
-							continue
-						}
-						if ld, isLd := ifi.Cond.(*ssa.UnOp); isLd && li.Before[ld] != core.LRead {
-							okRegion = false
-						}
-						between := reachFrom(tb.Succs[1], map[*ssa.BasicBlock]bool{b: true})
-						between[tb.Succs[1]] = true
-						for bb := range between {
-							if !reachFrom(bb, nil)[b] && bb != b {
-								continue
-							}
-							for _, in2 := range bb.Instrs {
-								if li.Before[in2] != core.LRead && bb != b {
-									okRegion = false
-								}
-							}
-						}
-					}
+					okRegion := sameRegion(fn, b, li, gOpen)
 					r.Check(okRegion, "R-C18.2", construct+" same locked region as the test", p.Pos(sd.Pos()), "flag tested and send performed under one read lock", "the read lock is released between testing closed and sending")
 				}
 				// R-C18.2 (delegated): the channel and the flag value are handed to a package-local free function that
@@ -159,7 +134,11 @@ func c18(c *Ctx) {
 								construct := fmt.Sprintf("%s send#%d on incoming (in %s)", name, nSend, h.Name())
 								r.Check(s == core.LRead, "R-C18.2", construct+" lock", p.Pos(cc.Pos()), "the delegating call is inside the read-locked region", "send on incoming while holding "+s.String()+" (Close may close the channel concurrently: send on closed channel panics)")
 								if flagAt < 0 {
-									r.Bad("R-C18.2", construct+" after closed==false", p.Pos(cc.Pos()), "the helper that sends does not receive the value of the closed flag")
+									// the flag is tested by the caller: the delegating call is the send
+									gOpen := core.FlagClear("l.closed", func(pp core.Path) bool { return pp.HasFields("closed") })
+									res := core.CutReach(p, fn, gOpen, b)
+									r.CutOb(p, "R-C18.2", construct+" after closed==false", p.Pos(cc.Pos()), res, gOpen)
+									r.Check(sameRegion(fn, b, li, gOpen), "R-C18.2", construct+" same locked region as the test", p.Pos(cc.Pos()), "flag tested and send delegated under one read lock", "the read lock is released between testing closed and the delegated send")
 									continue
 								}
 								fp := ssa.Value(h.Params[flagAt])
@@ -601,7 +580,6 @@ func sendsConn(in ssa.Instruction, isAlias func(ssa.Value) bool) bool {
 	return false
 }
 
-
 // isDrain: the call invokes the listener's drain starter (resolved as an anchor, rename-tolerant).
 func isDrain(c *Ctx, cc *ssa.CallCommon) bool {
 	f := c.P.Func("net", "(*MultiplexingListener).drainConnections")
@@ -609,4 +587,35 @@ func isDrain(c *Ctx, cc *ssa.CallCommon) bool {
 		f, _ = c.P.FuncRenamed("net", "(*MultiplexingListener).drainConnections")
 	}
 	return f != nil && cc.StaticCallee() == f
+}
+
+// sameRegion: between every test of the closed flag (guard g) and block b no instruction runs without the
+// read lock, and the flag itself is loaded under it.
+func sameRegion(fn *ssa.Function, b *ssa.BasicBlock, li *core.LockInfo, gOpen core.Guard) bool {
+	okRegion := true
+	for _, tb := range fn.Blocks {
+		ifi, isIf := tb.Instrs[len(tb.Instrs)-1].(*ssa.If)
+		if !isIf {
+			continue
+		}
+		if _, m := core.MatchCond(gOpen, ifi.Cond, nil); !m {
+			continue
+		}
+		if ld, isLd := ifi.Cond.(*ssa.UnOp); isLd && li.Before[ld] != core.LRead {
+			okRegion = false
+		}
+		between := reachFrom(tb.Succs[1], map[*ssa.BasicBlock]bool{b: true})
+		between[tb.Succs[1]] = true
+		for bb := range between {
+			if !reachFrom(bb, nil)[b] && bb != b {
+				continue
+			}
+			for _, in2 := range bb.Instrs {
+				if li.Before[in2] != core.LRead && bb != b {
+					okRegion = false
+				}
+			}
+		}
+	}
+	return okRegion
 }
